@@ -773,7 +773,13 @@ func sortStrings(s []string) {
 
 func init() {
 	Checks["C05"] = func(c *Ctx) { c.grammarCheck("query") }
-	Checks["C06"] = func(c *Ctx) { c.grammarCheck("schema") }
+	Checks["C06"] = func(c *Ctx) {
+		c.grammarCheck("schema")
+		// a faithful tree includes the BuiltIn mark of every definition and extension, per source, through
+		// ParseSchemas and ParseSchemasWithLimit (theorem C06_builtin_flag)
+		_, ss := RepoGraphQLInputs()
+		c.builtinFlagSweep(ss)
+	}
 	Checks["X-grammar-probes"] = func(c *Ctx) {
 		for _, g := range []string{"query", "schema"} {
 			p := grammarProbesQuery
